@@ -45,6 +45,8 @@ def check(chk, fx):
     from .. import termrules
     termrules.termapi(chk, fx)
     termrules.defarg(chk, fx)
+    from .. import primrules
+    primrules.prims(chk, fx, "GAPI2")         # precedence / associativity travel through these constructors and operators
     idxrule.report(chk, fx, lambda q: q.startswith(SA + "solve_conflict") or q.startswith(SA + "transitions") or
                    q.startswith(P + "calculate_rule") or q.startswith(P + "analyze_rule") or
                    q.startswith(P + "analyze_term"), "precedence tables and conflict solver", 5)
